@@ -11,6 +11,8 @@ path parameters for positional, keyword and mixed calls (and the table's indices
 parameters); _abspath of a relative name follows a chdir although helpers are memoised;
 _is_write_mode is right for every mode string open() accepts.
 Paths reached through untracked APIs and races with other processes are not decided.
+Further clauses (added later): C29.open-bindings interprets the loop over the open-like bindings with the real
+modules: builtins.open, io.open, Path.open and os.open are all replaced.
 """
 
 from __future__ import annotations
